@@ -241,6 +241,9 @@ pub struct Core {
 
 pub type CoreRef = Rc<RefCell<Core>>;
 
+/// Marker of the non-termination variant among `sim_violations`.
+pub const LOST_WAKE: &str = "LOST-WAKEUP";
+
 impl Core {
     pub fn new(trace: bool) -> CoreRef {
         Rc::new(RefCell::new(Core {
@@ -625,8 +628,17 @@ impl Exec {
             Poll::Pending => {
                 c.ev(Ev::PollPending);
                 if !c.transport_pending {
-                    c.sim_violations
-                        .push("future returned Pending although the transport did not".to_string());
+                    let woken = self.flag.0.load(Ordering::SeqCst) > 0 || !c.timers.is_empty();
+                    if woken {
+                        c.sim_violations
+                            .push("future returned Pending although the transport did not".to_string());
+                    } else {
+                        // nobody holds the waker and no wake-up is scheduled: a real executor would
+                        // never poll this task again
+                        c.sim_violations.push(format!(
+                            "{LOST_WAKE}: future returned Pending although the transport did not, and no wake-up was requested: the task would hang"
+                        ));
+                    }
                 }
             }
         }
